@@ -78,6 +78,7 @@ type pField struct {
 	Tag      string `json:"tag,omitempty"`
 	Doc      string `json:"doc,omitempty"`
 	Embedded bool   `json:"embedded,omitempty"`
+	Joined   bool   `json:"joined,omitempty"` // declared in the SAME field declaration as the previous field: `A, B T`
 }
 
 type pType struct {
@@ -219,7 +220,10 @@ func writeProject(p pProject, dir string) (map[string]string, error) {
 		switch t.Kind {
 		case "struct":
 			sb.WriteString("type " + t.Name + " struct {\n")
-			for _, f := range t.Fields {
+			for fi, f := range t.Fields {
+				if f.Joined {
+					continue // printed with the field it is joined to
+				}
 				if f.Doc != "" {
 					sb.WriteString("\t// " + f.Doc + "\n")
 				}
@@ -227,7 +231,11 @@ func writeProject(p pProject, dir string) (map[string]string, error) {
 				if f.Embedded || f.Name == "" {
 					line += f.Type
 				} else {
-					line += f.Name + " " + f.Type
+					names := f.Name
+					for k := fi + 1; k < len(t.Fields) && t.Fields[k].Joined; k++ {
+						names += ", " + t.Fields[k].Name
+					}
+					line += names + " " + f.Type
 				}
 				if f.Tag != "" {
 					line += " `" + f.Tag + "`"
